@@ -16,6 +16,7 @@
 (* and states the property as Closure / RoundTrip / QuoteLemma.  Deviations of the code     *)
 (* from the ideal are modelled as they are and NAMED (Why): a request captured by another   *)
 (* protocol class ("CapturedBy_<class>"), the Gemini query prefix ("QueryPrefixCapture"),   *)
+(* the built-in HTTP icon route ("IconRouteCapture"),                                       *)
 (* `URL:`-named files rendered as external references ("UrlNameAsReference").               *)
 (*                                                                                          *)
 (* Text is abstract: one TLA+ character per byte CLASS.  "^" stands for a byte >= 0x80      *)
@@ -385,6 +386,7 @@ Why(p, rq) ==
     LET r == Parse(rq) IN
     IF r.cls # OwnClass(p) THEN "CapturedBy_" \o r.cls
     ELSE IF r.kind \in {"prompt", "redirect"} THEN "QueryPrefixCapture"
+    ELSE IF r.kind = "icon" THEN "IconRouteCapture"      \* http.py answers /PYGOPHERD-HTTPPROTO-ICONS/<icon> itself
     ELSE "none"
 
 ------------------------------------------------------------------------------
@@ -544,7 +546,8 @@ Expressible(p, n) == p \in GopherViews => (n # "" /\ Last1(n) \notin cWS /\ \A x
 CaseExpressible(p, c) == Expressible(p, c.n) /\ (c.k \in {"dir", "mapdir", "zip"} => Expressible(p, c.m))
 
 \* deviations of the pinned code that are recorded as findings (known_findings.json); everything else must hold
-KnownWhy == {"CapturedBy_WAPProtocol", "CapturedBy_SpartanProtocol", "QueryPrefixCapture", "UrlNameAsReference"}
+KnownWhy == {"CapturedBy_WAPProtocol", "CapturedBy_SpartanProtocol", "QueryPrefixCapture", "UrlNameAsReference",
+             "IconRouteCapture"}
 Closure(p, c, hl) == CaseExpressible(p, c) => \A f \in Failing(p, c, hl) : f[3] \in KnownWhy
 ClosureStrict(p, c, hl) == CaseExpressible(p, c) => Failing(p, c, hl) = {}
 =============================================================================
